@@ -2,17 +2,54 @@ SPEC = {
     'module': 'EV.Props.C09',
     'theorems': ['EV.Mempool.C09_inv', 'EV.Mempool.C09_truthful', 'EV.Mempool.C09_recovers',
                  'EV.Mempool.C09_height_guard', 'EV.Mempool.C09_loop',
-                 'EV.Mempool.IndexError.C09_counterexample_index_error'],
+                 'EV.Mempool.IndexError.C09_counterexample_index_error',
+                 # the index side of EnvSound, proved of the index model (EV/Props/C08lookup.lean)
+                 'EV.Index.lookupUtxo_committed', 'EV.Index.lookupUtxo_committed_iff',
+                 'EV.Index.lookupUtxos_committed', 'EV.Index.lookupUtxo_during_block',
+                 'EV.Index.lookupUtxo_truthful', 'EV.Index.lookupUtxo_unknown_txid',
+                 'EV.Index.envSound_lookup_of_index', 'EV.Index.envSound_of_index', 'EV.Index.C09lookup_inv',
+                 'EV.Index.lookupUtxos_every_step',
+                 # F22: the two run_in_thread jobs of lookup_utxos read in different states
+                 'EV.Index.lookupUtxoSplit_fixed_sound', 'EV.Index.lookupUtxoSplit_any_ops',
+                 'EV.Index.lookupUtxoSplit_fixed_truthful', 'EV.Index.lookupUtxoSplit_fixed_stable',
+                 'EV.Index.lookupUtxoSplit_one_state', 'EV.Index.lookupUtxoSplit_orig_sound',
+                 'EV.Index.lookupUtxoSplit_reorg_hazard', 'EV.Index.envSound_of_index_split',
+                 'EV.Index.C09lookup_inv_split', 'EV.Index.lookupValue2_sound',
+                 'EV.Index.lookupValue2_aba_hazard'],
     'suites': ['mempool', 'system', 'index'],
     'entry': {'mempool': 'run_race', 'system': 'run'},
     # of what the shared suites find, C09 is about the mempool task staying alive, its view, and
     # EnvSound's "DB.lookup_utxos is truthful" (also after back-outs: tx numbers are reused)
-    'claims': {'violation_tags': ['task_died', 'mempool_view', 'lookup'], 'disagreement_tags': ['lookup']},
+    # lookup_split: lookup_utxos with index operations between its two thread jobs (F22)
+    'claims': {'violation_tags': ['task_died', 'mempool_view', 'lookup', 'lookup_split'],
+               'disagreement_tags': ['lookup', 'lookup_split']},
     'assumptions': [
         'EnvSound: a raw transaction delivered for hash h is the transaction with id h (or None, at any time, for '
-        'any hash); lookup_utxos answers None or the true (hashX, value) of that output for every prevout of every '
-        'chunk, from whatever height the index is at (validated on the real DB.lookup_utxos over LevelDB, incl. '
-        'unflushed and backed-out states); the listing and the completion order of the chunk tasks are arbitrary',
+        'any hash); the listing and the completion order of the chunk tasks are arbitrary',
+        'EnvSound, index clause (lookup_utxos answers None or the true (hashX, value) of that output for every '
+        'prevout of every chunk, from whatever height the index is at): no longer assumed of the index but PROVED of '
+        'the index model (EV/Props/C08lookup.lean) for every state of the extended whole-run invariant FullInv\' '
+        '(UTXO cache, queued deletes and unflushed blocks present, files ahead of DB.state, after back-outs and '
+        'restarts; every prevout may be answered in a state of its own): the answer is the specification lookup in '
+        'the UTXO set of the COMMITTED chain (lookupUtxo_committed, lookupUtxos_every_step), hence None or an output '
+        'of a transaction of that chain (lookupUtxo_truthful, envSound_of_index, C09lookup_inv; needs WorldHas: the '
+        'mempool world W contains the transactions of the chain); the two run_in_thread jobs of lookup_utxos '
+        '(lookup_hashXs, then lookup_utxos) are modelled separately (EV/Model/IndexSplit.lean) and may be read in '
+        'two different states: since the fix of F22 (job 2 calls fs_tx_hash(tx_num) again and answers None unless it '
+        'still gives the prevout tx hash) the answer is None or the true pair for ANY sequence of advances, flushes, '
+        'back-outs, re-advances and restarts between the two jobs - the state of job 1 is unconstrained '
+        '(lookupUtxoSplit_fixed_sound, lookupUtxoSplit_any_ops, envSound_of_index_split, C09lookup_inv_split) - and '
+        'outputs that stay are still answered (lookupUtxoSplit_fixed_stable); before the fix a back-out + re-advance '
+        '+ UTXO flush between the jobs gave a false pair, because tx numbers are reused '
+        '(lookupUtxoSplit_reorg_hazard; found on the real coroutine by suite index, Q_LOOKUP2A / Q_LOOKUP2B, and by '
+        'integration/lookup-split-replay.py); assumed, not proved: one thread job reads one state at operation '
+        'granularity (as for every reader of the index model) - should another thread commit between the two '
+        'statements of job 2 (u row, then fs_tx_hash) the answer is still None or true unless a block is backed out '
+        'AND the old branch re-advanced and flushed between those two statements (lookupValue2_sound, '
+        'lookupValue2_aba_hazard), and states in the middle of a flush batch belong to C05; the model-to-code tie for '
+        'lookup_utxos is suite index (Q_LOOKUP / S_LOOKUP incl. unflushed and backed-out states; Q_LOOKUP2A / '
+        'Q_LOOKUP2B: the real coroutine stepped by hand with real advance / flush / back-out operations between its '
+        'two jobs, plus the direct oracle "None or the (hashX, value) of that output")',
         'Valid: transactions only name output indices that exist in their parent transaction - excludes the one '
         'exception _accept_transactions does not catch (IndexError; C09_counterexample_index_error, replayed on the '
         'real class); bitcoind never relays such a transaction',
@@ -32,7 +69,9 @@ SPEC = {
                   'only in that the cutting of the coroutines into atomic steps is validated by the race suite '
                   '(event injected at each suspension point of the real code), not proved',
     'level_note': 'trusted: Lean kernel + the three standard axioms; model tied to the class by differential '
-                  'execution under a controlled scheduler; EnvSound/Valid about the daemon and DB.lookup_utxos',
+                  'execution under a controlled scheduler; EnvSound/Valid about the daemon; DB.lookup_utxos truthful: '
+                  'proved of the index model in every invariant state (C08lookup), the model tied to the real function by '
+                  'suite index',
     'technique': 'Lean 4 inductive invariant (MpInv) over a literal model with exceptions as data; race injection '
                  'at every suspension point of the real coroutines',
 }
